@@ -23,7 +23,7 @@ CALL2PRIM = {"Int8": "i8", "Int16": "i16", "Int32": "i32", "Int64": "i64", "UInt
              "Double": "f64", "Boolean": "bool", "Position": "pos"}
 CTYPE_W = {"int8_t": 1, "int16_t": 2, "int32_t": 4, "int64_t": 8, "uint8_t": 1, "uint16_t": 2, "uint32_t": 4,
            "uint64_t": 8, "char": 1, "size_t": 8, "float": 4, "double": 8, "bool": 1}
-FLAGS = ["checkAfterRead", "versionOr", "indexChecked", "lengthChecked", "valueStrFresh", "valueTypeLate"]
+FLAGS = ["checkAfterRead", "versionOr", "indexChecked", "lengthChecked", "valueStrFresh", "valueTypeLate", "dictLoadAdds"]
 
 
 # --------------------------------------------------------------------------------------------
@@ -126,7 +126,40 @@ def extract(repo=None):
     vnames = [x.strip() for x in m.group(1).split(",") if x.strip()]
     if any("=" in n for n in vnames) or vnames[-1] != "Max":
         raise CheckError("translator: variableType_e has explicit values / no Max sentinel")
-    return {"varTypeNames": vnames[:-1], "tagNames": names, "version": version, "nullPointer": nullp,
+    # the size bracket behind the body of an object record: one copy in ArchiveObject (read branch; ReadObject<T>()
+    # goes through it), one in the non-template ReadObject()
+    brackets = {}
+    for key, sig in [("bracketInto", r"void\s+Archiver::ArchiveObject\s*\([^)]*\)"),
+                     ("bracketPoly", r"Class\s*\*\s*Archiver::ReadObject\s*\(\s*\)")]:
+        b = func_body(src, sig)
+        if key == "bracketInto":
+            # the read branch only
+            m = re.search(r"if\s*\(\s*archivemode\s*==\s*archiveMode_e::Read\s*\)\s*\{", b)
+            if not m:
+                raise CheckError("translator: read branch of ArchiveObject not recognised")
+            i, depth = m.end(), 1
+            while i < len(b) and depth:
+                depth += {"{": 1, "}": -1}.get(b[i], 0)
+                i += 1
+            b = b[m.end():i - 1]
+        if not re.search(r"objstart\s*=\s*readStream->tellg\(\)", b) or not re.search(r"endpos\s*=\s*readStream->tellg\(\)", b):
+            raise CheckError("translator: objstart/endpos of %s not recognised" % key)
+        after = b.split("endpos", 1)[1]
+        chain = re.findall(r"if\s*\(\s*\(\s*endpos\s*-\s*objstart\s*\)\s*(>|<|!=)\s*size\s*\)\s*\{?\s*throw\s+ArchiveErrors::(\w+)\s*\(", after)
+        other = len(re.findall(r"\bthrow\b", after)) - len(chain)
+        if other or any(e not in ("ReadPastEndObject", "NotReadEntireDataObject") for _, e in chain):
+            raise CheckError("translator: size bracket of %s not recognised: %r" % (key, chain))
+        brackets[key] = chain
+    # load side of StringDictionary::ArchiveString: how the text read from the archive becomes a const_str
+    sdsrc = strip_cpp_comments(open(os.path.join(repo, "src", "Common", "StringDictionary.cpp")).read())
+    ab2 = func_body(sdsrc, r"void\s+StringDictionary::ArchiveString\s*\([^)]*\)")
+    if ab2 is None:
+        raise CheckError("translator: StringDictionary::ArchiveString not recognised")
+    m = re.search(r"constStringValue\s*=\s*(\w+)\s*\(\s*value(?:\.c_str\(\))?\s*\)\s*;", ab2)
+    if not m or m.group(1) not in ("Add", "Get"):
+        raise CheckError("translator: load side of StringDictionary::ArchiveString not recognised")
+    flags["dictLoadAdds"] = m.group(1) == "Add"
+    return {"brackets": brackets, "varTypeNames": vnames[:-1], "tagNames": names, "version": version, "nullPointer": nullp,
             "primTable": [(p, prim[p][0], prim[p][1]) for p in PRIMS], "flags": flags}
 
 
@@ -155,12 +188,20 @@ def gen_text(d):
         "def valueTypeLate : Bool := %s\n"
         "/-- `enum class variableType_e` in declaration order -/\n"
         "def varTypeNames : List String := [%s]\n"
+        "/-- `StringDictionary::ArchiveString`, load side: the text read becomes `Add(text)` (interned), not `Get(text)` -/\n"
+        "def dictLoadAdds : Bool := %s\n"
+        "/-- read branch of `ArchiveObject`: the chain `if ((endpos - objstart) OP size) throw E` behind the body -/\n"
+        "def bracketInto : List (String × String) := [%s]\n"
+        "/-- the same chain in the non-template `Class* ReadObject()` (a separate copy in the source) -/\n"
+        "def bracketPoly : List (String × String) := [%s]\n"
         "end Morfuse.Gen.Archive\n" % (
             ", ".join('"%s"' % n for n in d["tagNames"]), d["version"], d["nullPointer"],
             ", ".join('("%s", "%s", %d)' % t for t in d["primTable"]),
             b(d["flags"]["checkAfterRead"]), b(d["flags"]["versionOr"]), b(d["flags"]["indexChecked"]),
             b(d["flags"]["lengthChecked"]), b(d["flags"]["valueStrFresh"]), b(d["flags"]["valueTypeLate"]),
-            ", ".join('"%s"' % n for n in d["varTypeNames"])))
+            ", ".join('"%s"' % n for n in d["varTypeNames"]), b(d["flags"]["dictLoadAdds"]),
+            ", ".join('("%s", "%s")' % t for t in d["brackets"]["bracketInto"]),
+            ", ".join('("%s", "%s")' % t for t in d["brackets"]["bracketPoly"])))
 
 
 def translate(ctx):
